@@ -33,6 +33,9 @@ for pid, own in [("C02", "ign"), ("C09", "ign"), ("C10", "own")]:
 add("c09__q__dec_twice16", 20, "ign", "hist::dec_twice::<_, C09, 16>")
 add("c02__q__dec_twice16", 20, "ign", "hist::dec_twice::<_, C02, 16>")
 add("c09__t__dec_twice32", 36, "ign", "hist::dec_twice::<_, C09, 32>")
+# 2-safety: two unrelated contexts give the same verdict on the same bytes
+add("c09__q__dec_two_ctx20", 24, "ign", "hist::dec_two_ctx::<_, C09, 20>")
+add("c09__t__dec_two_ctx40", 44, "ign", "hist::dec_two_ctx::<_, C09, 40>")
 # seed-chosen spot lengths: tier "s" — the driver runs exactly one per (property, group), index VERIF_SEED % count
 for pid, own in [("C02", "ign"), ("C09", "ign"), ("C10", "own")]:
     for n in range(33, 128):
@@ -46,7 +49,8 @@ PROC_Q = [12, 13, 14]
 PROC_T = [15, 16, 17, 18, 19, 20, 24, 32, 64]
 # 12/13/14: every answerable request has one of these lengths; 16: the Set Endpoint ID *response*
 # (Rq=0, Success, 3 data bytes) — the shortest fixed-length response, for "responses change nothing"
-PROC_Q_EXTRA = {"C11": [16], "C13": [16], "C02": [], "C10": [16], "C12": []}
+# 18 / 29: the other two fixed-length responses (Get MCTP Version Support, Get Endpoint UUID)
+PROC_Q_EXTRA = {"C11": [16, 18, 29], "C13": [16, 18, 29], "C02": [], "C10": [16], "C12": []}
 for pid, own in [("C02", "ign"), ("C10", "own"), ("C11", "ign"), ("C12", "ign"), ("C13", "ign")]:
     for n in PROC_Q + PROC_Q_EXTRA[pid]:
         add("%s__q__proc_len%d" % (pid.lower(), n), 70, own, "proc::one::<_, %s, %d, 3, 2, false>" % (pid, n))
@@ -59,7 +63,7 @@ for pid in ["C03", "C04"]:
         add("%s__q__proc_len%d" % (pid.lower(), n), 70, "ign", "proc::one::<_, %s, %d, 3, 2, false>" % (pid, n))
 for pid, own in [("C10", "own"), ("C11", "ign")]:
     for n in range(21, 41):
-        if n in PROC_T:
+        if n in PROC_T or n in PROC_Q_EXTRA[pid]:
             continue
         add("%s__s__proc_len%d" % (pid.lower(), n), 70, own, "proc::one::<_, %s, %d, 3, 2, false>" % (pid, n))
 # a 259-byte process_packet harness did not finish within 50 minutes / 17 GB (measured): outside the claim;
@@ -68,6 +72,21 @@ PROC_BIG = []  # filled below once measured
 for n in PROC_BIG:
     add("c10__t__proc_len%d" % n, n + 12, "own", "proc::one::<_, C10, %d, 3, 2, false>" % n)
     add("c11__t__proc_len%d" % n, n + 12, "ign", "proc::one::<_, C11, %d, 3, 2, false>" % n)
+# inputs too short to be a control request go straight to process_packet as well:
+# symbolic length 0..=11 (C10 377 s; C11 572 s / 10 GB -> thorough), concrete 10 / 11 in quick for C11
+add("c10__q__proc_short11", 70, "own", "proc::short::<_, C10, 11, 99>")
+for k in (10, 11):
+    add("c11__q__proc_short_len%d" % k, 70, "ign", "proc::short::<_, C11, 11, %d>" % k)
+for pid in ["C11", "C02", "C13"]:
+    add("%s__t__proc_short11" % pid.lower(), 70, "ign", "proc::short::<_, %s, 11, 99>" % pid)
+# C10: "validly configured context" includes the documented maximum of 30 message types
+add("c10__q__proc_len12_nt30", 70, "own", "proc::one::<_, C10, 12, 30, 1, true>")
+# C10: maximum-size input through the processor (bare harness, see proc::long)
+add("c10__t__proc_long259", 262, "own", "proc::long::<_, C10, 259>")
+add("c10__t__proc_long256", 262, "own", "proc::long::<_, C10, 256>")
+# C07: the responses process_packet writes are encoded control responses as well
+for n in PROC_Q:
+    add("c07__q__proc_len%d" % n, 70, "ign", "proc::one::<_, C07, %d, 3, 2, false>" % n)
 add("c12__q__proc_len12_nt30", 70, "ign", "proc::one::<_, C12, 12, 30, 1, true>")
 add("c04__q__proc_len12_nt30", 70, "ign", "proc::one::<_, C04, 12, 30, 1, true>")
 # C14: 1..=16 vendor sets; only 13-byte packets carry the command
